@@ -250,7 +250,8 @@ class PjRpcMocker:
         params: Optional[JsonRpcParams],
         id: Optional[JsonRpcRequestId],
     ) -> Response:
-        matches = self._matches[endpoint].get((version, method_name))
+        # do not index the defaultdict: that would leave an empty entry behind for an endpoint without patches
+        matches = self._matches.get(endpoint, {}).get((version, method_name))
         if matches is None:
             return pjrpc.Response(id=id, error=pjrpc.exc.MethodNotFoundError(data=method_name))
 
